@@ -10,8 +10,10 @@ def nonFreshPerRunFields : List String := []
 def runBuildsOptMap : Bool := true
 def runCreatesStateViaRunCtx : Bool := true
 def sharedWrites : List String := []
+def extractOptionCopies : Bool := true
+def toolsNodeRunPathWrites : List String := []
 def alloc : EinoV.C09.Alloc :=
   EinoV.C09.allocOf runAllocsChannelManager channelsBuiltPerRun channelManagerFieldsFresh
     runAllocsTaskManager taskManagerQueueFresh runBuildsOptMap runCreatesStateViaRunCtx
-    sharedWrites nonFreshPerRunFields
+    sharedWrites nonFreshPerRunFields extractOptionCopies
 end EinoV.Expected.C09
